@@ -9,7 +9,7 @@ from . import fmt, gen
 
 RECORD_LEVEL = {"drop_record", "bad_byte", "qual_len", "drop_line", "dup_line", "bad_lead", "mate_missing", "mate_rename", "flip_base", "blank_line"}
 BYTE_LEVEL = {"truncate", "gz_flip"}
-PLAIN_LEVEL = {"truncate_plain"}  # the producer was cut short, the compressor finished its stream properly
+PLAIN_LEVEL = {"truncate_plain", "zero_fill"}  # the producer was cut short, the compressor finished its stream properly
 
 
 def _split_lines(plain):
@@ -103,7 +103,14 @@ def apply(case, files):
         plains = [gen.style_plain(case, pl) for pl in plains]
         for f in plain_faults:
             i = min(f.get("file", 0), len(plains) - 1)
-            plains[i] = plains[i][: max(0, min(f["offset"], len(plains[i])))]
+            kept = plains[i][: max(0, min(f["offset"], len(plains[i])))]
+            if f["kind"] == "zero_fill":
+                # an interrupted copy into a preallocated file, or block padding: zero bytes up to a block boundary
+                block = f.get("block", 512)
+                size = max(len(plains[i]) if f.get("to_full_size") else len(kept) + 1, len(kept) + 1)
+                size = -(-size // block) * block
+                kept = kept + b"\0" * (size - len(kept))
+            plains[i] = kept
         for i, p in enumerate(paths):
             r = random.Random(case.get("member_seed", 0) * 31 + i)
             out[p] = fmt.compress(".gz" if bam else inp["containers"][i], plains[i], rng=r, members=inp["members"][i])
